@@ -259,9 +259,14 @@ def check(tier):
     _fold(rep, rep3, "macro")
     its = [(t, b, 3) for t, b in corpus_items(tier)]
     total = e1.Out()
-    with mp.get_context("fork").Pool(ncpu()) as pool:
-        for o in pool.imap_unordered(e3._Guard(_corpus_one, PROP), its, chunksize=16):
-            total.merge(o)
+    from .. import par
+
+    for o in par.pmap_unordered(e3._Guard(_corpus_one, PROP), its, chunksize=16):
+        if isinstance(o, par.WorkerDied):
+            _d = e1.Out()
+            _d.violate(PROP, f"{PROP}|worker-process-died", f"{o.why} while checking {repr(o.item)[:300]}", {"item": repr(o.item)[:2000]}, 0)
+            o = _d
+        total.merge(o)
     for k, v in total.stats.items():
         rep.add("corpus_" + k, v)
     rep.add("evaluations", total.stats.get("histories", 0))
